@@ -2,6 +2,7 @@ import Pm.SerialProof
 import Pm.TelnetPass
 import Pm.CapProof
 import Pm.CbufRingRun
+import Pm.ToBufProps
 /-! # C09 — the byte streams between the daemon and its devices and clients are carried faithfully
 
 What expect patterns are matched against is exactly the byte stream the device sent on the current connection — in
@@ -19,20 +20,26 @@ of what the kernel has (`readOf`, `readTaken`; the rest stays in the kernel for 
 full at its maximal size overwrites its oldest unread bytes (`dropOf`, `readDropped`).  "While unconsumed data stays
 within buffer capacity" is therefore no longer a standing assumption but a hypothesis that can be read off the theorems:
 `readDropped = 0` unless `fromBuf.length = fromSize = max` (`C09_no_loss_below_max`), and the overwritten bytes are
-exactly the oldest ones (`C09_overflow_drops_oldest`).  On the write side the model keeps `toBuf` as an unbounded list
-(the cbuf of `MAX_DEV_BUF` on the way *to* a device is not modelled); a device `write` takes what the kernel has room
-for (`C09_device_short_write`).
+exactly the oldest ones (`C09_overflow_drops_oldest`).  On the write side the buffer on the way *to* a device, `dev->to`, is
+a cbuf of `MAX_DEV_BUF` = 65536 bytes in overwrite mode too: what `_process_send` and the telnet answers queue beyond that
+overwrites the oldest *unsent* bytes (`clipTo`; section 8: `C09_device_out_capacity`, `C09_device_out_no_loss_below_max`,
+`C09_device_out_overflow_drops_oldest`); a device `write` takes what the kernel has room for (`C09_device_short_write`).
+The statements of sections 1 and 5 that read `toBuf ++ …` before this capacity was modelled now read `clipTo (toBuf ++ …)`,
+each with its old form as a corollary under the explicit no-overflow hypothesis (`…_below`).
 
 Sections: 1 segmentation independence ▸ 2 what the decoder keeps (specification without the state machine) ▸
 3 the read side: `_handle_ready_device`, `_process_expect`, any interleaving ▸ 4 reconnects ▸ 5 the write side ▸
 6 whole passes of `dev_post_poll` and runs of passes (the property as an invariant of the daemon loop) ▸
 7 capacity: what is read is a prefix, the size invariant, no loss below the maximum, the exact loss at the maximum,
-short writes ▸ 8 the ring itself: liblsd's `cbuf.c` at index level (`Pm/CbufRing.lean`: `data`, `i_in`, `i_out`, `i_rep`,
-`got_wrap`, two-piece copies, `cbuf_grow`'s re-layout) refines the byte queue with the size rule used in sections 1–7. -/
+short writes ▸ 8 the capacity of the device output buffer ▸ 9 the ring itself: liblsd's `cbuf.c` at index level (`Pm/CbufRing.lean`: `data`, `i_in`, `i_out`, `i_rep`,
+`got_wrap`, two-piece copies, `cbuf_grow`'s re-layout) refines the byte queue with the size rule used in sections 1–7 ▸ 10 serial devices. -/
 namespace Pm.Props.C09
 open Pm.Dev2
 open Pm.Dev2.Tel Pm.Daemon.Tel
 open Pm.Dev2.Cap
+open Pm.Dev2.Login2 (telnetReplies readyReplies sentBytes postPollReady postPollPre)
+open Pm.Dev2.Interp (sendText)
+open Pm.Dev2.ToBufP
 
 /-- a device with nothing configured and nothing pending, for the examples -/
 def dev0 : Dev :=
@@ -42,29 +49,48 @@ def dev0 : Dev :=
 /-! ## 1. segmentation independence -/
 
 /-- `_telnet_preprocess` is exactly: continue the ideal decoder (`decodeFrom` = one fold of `telnetStep`) on the newly
-    read bytes from the state the device carries; append what it keeps to `fromBuf`, its option replies to `toBuf`;
-    carry the state it ends in.  Nothing already in `fromBuf` is looked at again (the repair of F4). -/
+    read bytes from the state the device carries; append what it keeps to `fromBuf`, queue its option replies in `toBuf`;
+    carry the state it ends in.  Nothing already in `fromBuf` is looked at again (the repair of F4).
+    (Changed when the capacity of `dev->to` was modelled: `toBuf := clipTo (d.toBuf ++ …)` where it read `d.toBuf ++ …`: of
+    more than 65536 queued bytes the oldest give way.  Below the limit: `C09_filter_is_decoder_below`.) -/
 theorem C09_filter_is_decoder (d : Dev) (new : Bytes) :
     telnetFilter d new =
       { d with tstate := (decodeFrom d.tstate d.tcmd new).st, tcmd := (decodeFrom d.tstate d.tcmd new).cmd,
                fromBuf := d.fromBuf ++ (decodeFrom d.tstate d.tcmd new).kept,
-               toBuf := d.toBuf ++ (decodeFrom d.tstate d.tcmd new).replies } :=
+               toBuf := clipTo (d.toBuf ++ (decodeFrom d.tstate d.tcmd new).replies) } :=
   telnetFilter_eq d new
+
+/-- the statement as it read before, under the explicit no-overflow hypothesis -/
+theorem C09_filter_is_decoder_below (d : Dev) (new : Bytes)
+    (hfit : (d.toBuf ++ (decodeFrom d.tstate d.tcmd new).replies).length ≤ 65536) :
+    telnetFilter d new =
+      { d with tstate := (decodeFrom d.tstate d.tcmd new).st, tcmd := (decodeFrom d.tstate d.tcmd new).cmd,
+               fromBuf := d.fromBuf ++ (decodeFrom d.tstate d.tcmd new).kept,
+               toBuf := d.toBuf ++ (decodeFrom d.tstate d.tcmd new).replies } := by
+  rw [telnetFilter_eq, clipTo_of_le _ hfit]
+
+/-- non-vacuity of the no-overflow hypothesis: three answer bytes behind an empty queue -/
+example : (dev0.toBuf ++ (decodeFrom dev0.tstate dev0.tcmd [255, 253, 1]).replies).length ≤ 65536 := by decide
 
 /-- Two reads delivering `a` then `b` leave the device — decoder state, pending bytes, queued replies, everything —
     exactly as one read delivering `a ++ b` would, whatever was pending and whatever state the decoder was in. -/
 theorem C09_split (d : Dev) (a b : Bytes) : telnetFilter (telnetFilter d a) b = telnetFilter d (a ++ b) :=
   telnetFilter_append d a b
 
-/-- The same for any number of reads: only the concatenation of the chunks matters. -/
-theorem C09_split_chunks (d : Dev) (chunks : List Bytes) :
+/-- The same for any number of reads: only the concatenation of the chunks matters.
+    (The hypothesis — the output buffer is within its capacity to begin with, as every reachable one is:
+    `C09_device_out_capacity` — was added with the capacity of `dev->to`; it is needed for the empty list of chunks only, where
+    the right-hand side is `telnetFilter d []`, which writes `clipTo d.toBuf`.  `C09_split` holds beyond the limit too:
+    overwriting writes compose, `clipTo_clipTo_append`.) -/
+theorem C09_split_chunks (d : Dev) (chunks : List Bytes) (hcap : d.toBuf.length ≤ 65536) :
     chunks.foldl telnetFilter d = telnetFilter d chunks.flatten :=
-  telnetFilter_chunks d chunks
+  telnetFilter_chunks d chunks hcap
 
-/-- Hence two segmentations of the same stream cannot be told apart. -/
-theorem C09_segmentation_independent (d : Dev) (c1 c2 : List Bytes) (h : c1.flatten = c2.flatten) :
+/-- Hence two segmentations of the same stream cannot be told apart — also when the replies overflow the output buffer. -/
+theorem C09_segmentation_independent (d : Dev) (c1 c2 : List Bytes) (h : c1.flatten = c2.flatten)
+    (hcap : d.toBuf.length ≤ 65536) :
     c1.foldl telnetFilter d = c2.foldl telnetFilter d := by
-  rw [C09_split_chunks, C09_split_chunks, h]
+  rw [C09_split_chunks _ _ hcap, C09_split_chunks _ _ hcap, h]
 
 /-- the F4 witness stream `a b IAC | DO ECHO c \n`: split inside the command, the script now sees `a b c \n`, and
     `WONT ECHO` is queued once -/
@@ -356,18 +382,46 @@ example :
                    env := { now := 0, revents := 2, sockets := [], connects := [], soerrs := [], read := none, writeOk := true },
                    sys := [] }).1.dev.toBuf = [] := by decide
 
-/-- Device, every call of `_handle_ready_device`, no hypotheses, any capacity of the descriptor: the bytes written
-    successfully so far followed by `toBuf` change only by growing at the end, by the telnet option replies to what this
-    call read.  So between reconnects every queued byte reaches the descriptor once, in order, however short the writes. -/
-theorem C09_device_write_conserved (c : CS) :
-    ∃ bs, devWritten (handleReady c).1.sys ++ (handleReady c).1.dev.toBuf =
-      devWritten c.sys ++ c.dev.toBuf ++ repliesOf c.dev bs :=
-  handleReady_write_conserve c
+/-- Device, every call of `_handle_ready_device`, any capacity of the descriptor: a successful `write` moves a front piece
+    `wr` of `toBuf` to the descriptor (`wr = []` otherwise), the rest `kept` stays queued, and the telnet option replies to what
+    this call read are queued behind it.  So what has been *written* is never lost, repeated or reordered however short the
+    writes; what is *queued* loses bytes only at its old end and only beyond the capacity of `dev->to` (`clipTo`: the last
+    65536 bytes).
+    Changed when the capacity was modelled: the statement read
+    `devWritten sys' ++ toBuf' = devWritten sys ++ toBuf ++ replies` ("written ++ queued only grows at its end"), which is
+    false beyond 64 KiB (`C09_device_write_conserved_old_counterexample`); it still holds whenever the buffer does not
+    overflow: `C09_device_write_conserved_below`.  The hypothesis is the capacity invariant (`C09_device_out_capacity`). -/
+theorem C09_device_write_conserved (c : CS) (hcap : c.dev.toBuf.length ≤ 65536) :
+    ∃ bs wr kept, wr ++ kept = c.dev.toBuf ∧ devWritten (handleReady c).1.sys = devWritten c.sys ++ wr ∧
+      (handleReady c).1.dev.toBuf = clipTo (kept ++ repliesOf c.dev bs) :=
+  handleReady_write_conserve c hcap
 
-/-- Device: `_process_send` queues at the end of `toBuf`. -/
-theorem C09_send_appends (d : Dev) (a : Action) (o : Oracle) (e : ExecCtx) (fmt : Bytes) :
-    ∃ s, (stmtSend d a o e fmt).dev.toBuf = d.toBuf ++ s :=
-  stmtSend_appends d a o e fmt
+/-- The statement as it read before, under the explicit no-overflow hypothesis — what was queued and the replies fit the
+    buffer together — or, what is easier to observe, the buffer is not full afterwards. -/
+theorem C09_device_write_conserved_below (c : CS) (hcap : c.dev.toBuf.length ≤ 65536) :
+    ∃ bs, ((c.dev.toBuf ++ repliesOf c.dev bs).length ≤ 65536 ∨ (handleReady c).1.dev.toBuf.length < 65536 →
+      devWritten (handleReady c).1.sys ++ (handleReady c).1.dev.toBuf =
+        devWritten c.sys ++ c.dev.toBuf ++ repliesOf c.dev bs) :=
+  handleReady_write_conserve_below c hcap
+
+/-- non-vacuity: the device of the short-write example below is within the capacity, and not full afterwards -/
+example :
+    let c : CS := { dev := { dev0 with conn := 2, fd := some 7, toBuf := [111, 110, 10] },
+                    env := { now := 0, revents := 2, sockets := [], connects := [], soerrs := [], read := none, writeOk := true, wcap := 2 },
+                    sys := [] }
+    c.dev.toBuf.length ≤ 65536 ∧ (handleReady c).1.dev.toBuf.length < 65536 := by decide
+
+/-- Device: `_process_send` queues at the end of `toBuf` (changed with the capacity of `dev->to`: `clipTo (d.toBuf ++ s)` where
+    it read `d.toBuf ++ s`; the hypothesis is the capacity invariant, needed for the visits that queue nothing). -/
+theorem C09_send_appends (d : Dev) (a : Action) (o : Oracle) (e : ExecCtx) (fmt : Bytes) (hcap : d.toBuf.length ≤ 65536) :
+    ∃ s, (stmtSend d a o e fmt).dev.toBuf = clipTo (d.toBuf ++ s) :=
+  stmtSend_appends d a o e fmt hcap
+
+/-- Device: below the limit `_process_send` appends (the statement as it read before). -/
+theorem C09_send_appends_below (d : Dev) (a : Action) (o : Oracle) (e : ExecCtx) (fmt : Bytes) (hcap : d.toBuf.length ≤ 65536) :
+    ∃ s, (stmtSend d a o e fmt).dev.toBuf = clipTo (d.toBuf ++ s) ∧
+      ((d.toBuf ++ s).length ≤ 65536 → (stmtSend d a o e fmt).dev.toBuf = d.toBuf ++ s) :=
+  stmtSend_appends_below d a o e fmt hcap
 
 open Pm.Daemon in
 /-- Client, one `_handle_write`: the payload of the `write` it issues (none, a prefix, or everything) followed by what
@@ -700,7 +754,133 @@ example :
                     sys := [] }
     (handleReady c).1.dev.toBuf = [111, 110, 10] ∧ (handleReady c).2 = true := by decide
 
-/-! ## 8. the ring: `liblsd/cbuf.c` at index level refines the byte queue
+/-! ## 8. the capacity of the device output buffer
+
+`dev->to = cbuf_create(MIN_DEV_BUF, MAX_DEV_BUF)` (device.c, `dev_create`) is a liblsd circular buffer in its default overwrite
+mode (`CBUF_WRAP_MANY`): `cbuf_write` always stores all the bytes it is given, growing the buffer up to 65536 bytes, and beyond
+that the oldest *unsent* bytes are overwritten (`cbuf_writer`: `dropped = n - nfree`).  Its writers are `_process_send` (which
+logs "buffer overrun" and goes on: finding F33 was the assertion that used to be here) and `_telnet_sendopt` (a 3-byte answer to
+every `IAC DO x` received); `_handle_write` drains it.  A tcp device that does not read while it floods `IAC DO x` fills it:
+21 846 triples queue 65 538 bytes.  In the model `clipTo b` = the last 65536 bytes of `b` (`clipTo_eq_drop`) is applied where
+these two queue their bytes; `toDropped old s = |old ++ s| - 65536` is the `dropped` count of the write. -/
+
+/-- **The capacity is an invariant.**  `toBuf.length ≤ 65536` holds of the buffer of a new device (empty), is kept by
+    `_handle_ready_device`, by `_process_action` (any fuel), by a whole `dev_post_poll` pass, by `_connect`, `_reconnect`
+    (`_disconnect` empties the buffer), and hence over any run of passes, whatever the kernel and the regex engine answer. -/
+theorem C09_device_out_capacity :
+    (∀ c : CS, c.dev.toBuf.length ≤ 65536 → (handleReady c).1.dev.toBuf.length ≤ 65536) ∧
+    (∀ (fuel : Nat) (c : CS) (o : Oracle) (out : List Out) (tmo : Option Time), c.dev.toBuf.length ≤ 65536 →
+        (processActionF fuel c o out tmo).1.dev.toBuf.length ≤ 65536) ∧
+    (∀ (c : CS) (o : Oracle) (out : List Out) (tmo : Option Time), c.dev.toBuf.length ≤ 65536 →
+        (processAction c o out tmo).1.dev.toBuf.length ≤ 65536) ∧
+    (∀ (d : Dev) (env : Env) (o : Oracle), d.toBuf.length ≤ 65536 → (postPoll d env o).1.dev.toBuf.length ≤ 65536) ∧
+    (∀ c : CS, c.dev.toBuf.length ≤ 65536 → (connectDev c).dev.toBuf.length ≤ 65536) ∧
+    (∀ (c : CS) (tmo : Option Time), c.dev.toBuf.length ≤ 65536 → (reconnectDev c tmo).1.dev.toBuf.length ≤ 65536) ∧
+    (∀ (s : Dev × Bytes) (ps : List (Env × Oracle)), s.1.toBuf.length ≤ 65536 → (ps.foldl passStep s).1.toBuf.length ≤ 65536) :=
+  ⟨Pm.Dev2.Login2.handleReady_cap, Pm.Dev2.Login2.processActionF_cap, Pm.Dev2.Login2.processAction_cap,
+   Pm.Dev2.Login2.postPoll_cap, connectDev_cap, reconnectDev_cap, run_cap⟩
+
+/-- the two writers never leave more than 65536 bytes queued, whatever was queued before (within the capacity or not) -/
+theorem C09_device_out_capacity_writers (d : Dev) (a : Action) (o : Oracle) (e : ExecCtx) (fmt s bs : Bytes)
+    (hp : e.processing = false) (hs : sendText fmt e.plugs = some s) :
+    (stmtSend d a o e fmt).dev.toBuf.length ≤ 65536 ∧ (telnetFilter d bs).toBuf.length ≤ 65536 := by
+  refine ⟨?_, Pm.Dev2.Login2.telnetFilter_cap d bs⟩
+  rw [(Pm.Dev2.Interp.stmtSend_fresh d a o e fmt s hp hs).1]; exact clipTo_length_le _
+
+/-- non-vacuity: a new device starts within the capacity; the full device of the witnesses is at it -/
+example : dev0.toBuf.length ≤ 65536 ∧ fullDev.toBuf.length = 65536 := ⟨by decide, fullDev_len⟩
+
+/-- **Nothing is lost below the maximum.**  A whole `dev_post_poll` pass in which what is queued, the telnet answers the pass
+    can add (`readyReplies`: those to the bytes the `read` hands over on a tcp device) and the texts the pass's `send`
+    statements queue fit the buffer together: what a successful `write` delivered in this pass (`wr`, a prefix of the queue,
+    logged) followed by what is queued afterwards is exactly what was queued before, then the answers, then the texts, in
+    this order — delivered ++ queued = everything queued — unless the pass disconnected (i/o error before `_process_action`: just
+    the texts are queued; error branch of `_process_action`: the queue is empty). -/
+theorem C09_device_out_no_loss_below_max (d : Dev) (env : Env) (o : Oracle)
+    (hfit : d.toBuf.length + (readyReplies { dev := d, env := env, sys := [] }).length +
+      (sentBytes (postPoll d env o).2.2.1).length ≤ 65536) :
+    ∃ wr reply,
+      (wr = [] ∨ Sys.write wr true ∈ (postPollReady d env).1.sys) ∧ wr <+: d.toBuf ∧
+      (reply = [] ∨ ∃ bs, env.read = some (some bs) ∧ d.isPipe = false ∧
+        reply = telnetReplies d.tstate d.tcmd (readOf d bs)) ∧
+      (wr ++ (postPoll d env o).1.dev.toBuf = d.toBuf ++ reply ++ sentBytes (postPoll d env o).2.2.1 ∨
+       ((postPoll d env o).1.dev.toBuf = sentBytes (postPoll d env o).2.2.1 ∧
+          (postPollReady d env).2 = true ∧ (postPollReady d env).1.dev.conn ≠ 0) ∨
+       ((postPoll d env o).1.dev.toBuf = [] ∧ (postPollPre d env).1.dev.conn = 2 ∧
+          ((postPoll d env o).1.dev.conn ≠ 2 ∨
+           (postPoll d env o).1.dev.retryCount = (postPollPre d env).1.dev.retryCount + 1))) :=
+  postPoll_no_loss d env o hfit
+
+/-- the same for one `_handle_ready_device` in the log's terms, with the criterion a trace can be checked against: whenever
+    the buffer is *not full* afterwards (fewer than 65536 bytes queued), written-so-far ++ queued has only grown at its end -/
+theorem C09_device_out_no_loss_not_full (c : CS) (hcap : c.dev.toBuf.length ≤ 65536)
+    (hnf : (handleReady c).1.dev.toBuf.length < 65536) :
+    ∃ bs, devWritten (handleReady c).1.sys ++ (handleReady c).1.dev.toBuf =
+      devWritten c.sys ++ c.dev.toBuf ++ repliesOf c.dev bs := by
+  obtain ⟨bs, h⟩ := handleReady_write_conserve_below c hcap
+  exact ⟨bs, h (Or.inr hnf)⟩
+
+/-- non-vacuity of the hypothesis of `C09_device_out_no_loss_below_max` (and the first case: three answer bytes are queued) -/
+example :
+    let d : Dev := { dev0 with conn := 2, fd := some 7, toBuf := [111, 110, 10] }
+    let env : Env := { now := 0, revents := 1, sockets := [], connects := [], soerrs := [], read := some (some [255, 253, 1]), writeOk := true }
+    d.toBuf.length + (readyReplies { dev := d, env := env, sys := [] }).length + (sentBytes (postPoll d env ⟨[]⟩).2.2.1).length = 6 ∧
+    (postPoll d env ⟨[]⟩).1.dev.toBuf = [111, 110, 10, 255, 252, 1] := by decide +kernel
+
+/-- **Beyond the maximum exactly the oldest queued bytes are lost** — the exact statement for each of the two writers and for
+    `_handle_ready_device`.
+    (1) A first-visit `send` of a text `s` of at most 65536 bytes: the `toDropped d.toBuf s = |toBuf| + |s| - 65536` oldest queued
+    bytes give way and the text is queued whole; with the buffer exactly full (`|toBuf| = 65536`) that is exactly `|s|` bytes.
+    (2) Of a text longer than the buffer only its last 65536 bytes are queued and nothing older stays.
+    (3) The telnet answers to the bytes `bs` read: the same, with the answers in the place of the text.
+    (4) `_handle_ready_device` with the descriptor readable and not writable, the buffer exactly full: the answers `r` to what was
+    read push out exactly the `|r|` oldest queued bytes.
+    Nothing else is lost, nothing is reordered: what stays is a suffix of what was queued, followed by what was written. -/
+theorem C09_device_out_overflow_drops_oldest :
+    (∀ (d : Dev) (a : Action) (o : Oracle) (e : ExecCtx) (fmt s : Bytes), e.processing = false → sendText fmt e.plugs = some s →
+        s.length ≤ 65536 →
+        (stmtSend d a o e fmt).dev.toBuf = d.toBuf.drop (toDropped d.toBuf s) ++ s ∧
+        (d.toBuf.length = 65536 → (stmtSend d a o e fmt).dev.toBuf = d.toBuf.drop s.length ++ s)) ∧
+    (∀ (d : Dev) (a : Action) (o : Oracle) (e : ExecCtx) (fmt s : Bytes), e.processing = false → sendText fmt e.plugs = some s →
+        65536 ≤ s.length → (stmtSend d a o e fmt).dev.toBuf = s.drop (s.length - 65536)) ∧
+    (∀ (d : Dev) (bs : Bytes), (telnetReplies d.tstate d.tcmd bs).length ≤ 65536 →
+        (telnetFilter d bs).toBuf =
+          d.toBuf.drop (toDropped d.toBuf (telnetReplies d.tstate d.tcmd bs)) ++ telnetReplies d.tstate d.tcmd bs ∧
+        (d.toBuf.length = 65536 → (telnetFilter d bs).toBuf =
+          d.toBuf.drop (telnetReplies d.tstate d.tcmd bs).length ++ telnetReplies d.tstate d.tcmd bs)) ∧
+    (∀ (c : CS) (bs : Bytes), ReadyOk c → c.env.revents &&& 2 = 0 → c.env.revents &&& 1 ≠ 0 →
+        c.env.read = some (some bs) → bs ≠ [] → c.dev.toBuf.length = 65536 →
+        (repliesOf c.dev (readOf c.dev bs)).length ≤ 65536 →
+        (handleReady c).1.dev.toBuf =
+          c.dev.toBuf.drop (repliesOf c.dev (readOf c.dev bs)).length ++ repliesOf c.dev (readOf c.dev bs)) :=
+  ⟨fun d a o e fmt s hp hs hl => ⟨stmtSend_drops_oldest d a o e fmt s hp hs hl, fun hf => stmtSend_full d a o e fmt s hp hs hf hl⟩,
+   fun d a o e fmt s hp hs hl => by rw [stmtSend_long d a o e fmt s hp hs hl, clipTo_eq_drop],
+   fun d bs hl => ⟨telnetFilter_drops_oldest d bs hl, fun hf => telnetFilter_full d bs hf hl⟩,
+   fun c bs h hout hin hr hbs hf hl => handleReady_read_full c bs h hout hin hr hbs hf hl⟩
+
+/-- the `dropped` count is what `cbuf_write` reports: `max 0 (|old| + |s| - 65536)`, positive exactly when the write overruns -/
+theorem C09_device_out_dropped (old s : Bytes) :
+    toDropped old s = old.length + s.length - 65536 ∧ (toOverrun old s = true ↔ 0 < toDropped old s) :=
+  ⟨by unfold toDropped; rw [List.length_append], toOverrun_iff old s⟩
+
+/-- non-vacuity, (1) and (4) at the limit: against 65536 queued bytes a `send "l\n"` loses the two oldest, an `IAC DO ECHO`
+    read (answer `IAC WONT ECHO`) loses the three oldest -/
+example (a : Action) (o : Oracle) :
+    (stmtSend fullDev a o sendCtx [108, 10]).dev.toBuf = fullDev.toBuf.drop 2 ++ [108, 10] ∧
+    (handleReady stormC).1.dev.toBuf = (List.replicate 65536 7).drop 3 ++ [255, 252, 1] :=
+  ⟨(send_append_counterexample a o).2.2.2, stormC_toBuf⟩
+
+/-- **The old statement of the write side is false beyond 64 KiB.**  `C09_device_write_conserved` read, before the capacity was
+    modelled, "written so far ++ queued only grows at its end, by the answers to what was read".  On the full device whose
+    descriptor delivers one `IAC DO ECHO` and is not writable there is no `bs` for which this holds: three queued bytes are gone.
+    (The C code does the same: the correspondence run reaches this state with a telnet storm, `lib/daemon.py`.) -/
+theorem C09_device_write_conserved_old_counterexample :
+    stormC.dev.toBuf.length ≤ 65536 ∧
+    ¬ ∃ bs, devWritten (handleReady stormC).1.sys ++ (handleReady stormC).1.dev.toBuf =
+      devWritten stormC.sys ++ stormC.dev.toBuf ++ repliesOf stormC.dev bs :=
+  ⟨Nat.le_of_eq fullDev_len, write_conserved_old_counterexample⟩
+
+/-! ## 9. the ring: `liblsd/cbuf.c` at index level refines the byte queue
 
 `Pm/CbufRing.lean` mirrors `cbuf.c` line by line with its indices (compared with the real code op by op by
 `lib/cbuflayer.py`).  `Ring.valid` is `cbuf_is_valid` (every assertion of it); `Ring.contents` reads the unread bytes off
@@ -1017,7 +1197,7 @@ end ring
 
 end Pm.Props.C09
 
-/-! ## 9. Serial devices (`device_serial.c`)
+/-! ## 10. Serial devices (`device_serial.c`)
 
 Between a serial device and the buffers of sections 1–7 sits the kernel's tty line discipline, configured by
 `_serial_setup`.  `Pm/Serial.lean` models the flags string (`sscanf`), `_serial_setup` edit by edit over this platform's
